@@ -23,6 +23,10 @@ sys.path.insert(0, common.VERIF)
 from ref import refscan
 
 TERMS = ['\n', '\r', '\r\n', '\u2028', '\u2029']
+# characters that are NOT ES5 line terminators but are line boundaries for Python's str.splitlines (and may be for other
+# ready-made splitters): they may occur inside a token like any other character and must not count as a line
+PSEUDO = ['\x0c', '\x85']
+SEPS = TERMS + PSEUDO
 
 
 class SymRun:
@@ -49,10 +53,21 @@ class TokVal:
     def __contains__(self, ch):
         if not isinstance(ch, str):
             raise sx.SXUnsupported('in TokVal')
-        alts = [t.e == i for t in self.terms for i, v in enumerate(TERMS) if ch in v]
+        alts = [t.e == i for t in self.terms for i, v in enumerate(SEPS) if ch in v]
         if not alts:
             return False
         return bool(SBool(z3.Or(alts)))
+
+    def splitlines(self, keepends=False):
+        """Python's str.splitlines: boundaries are the ES5 terminators and the PSEUDO characters; no trailing empty piece"""
+        out = []
+        for r, t in zip(self.runs, self.terms):
+            kind = t.concretize()
+            out.append(SymRun(r) + kind if keepends else SymRun(r))
+        last = self.runs[-1]
+        if bool(SBool(sx.zint(last) > 0)) or not self.terms:
+            out.append(SymRun(last))
+        return out
 
     @property
     def sym_len(self):
@@ -92,7 +107,7 @@ SPLIT_TABLE = {}
 def probe_split(pat):
     """how the live pattern splits each terminator kind (concrete probing of the compiled regex)"""
     tab = {}
-    for t in TERMS:
+    for t in SEPS:
         tab[t] = pat.split('x' + t + 'y') == ['x', t, 'y']
     tab['crlf_as_one'] = pat.split('x\r\ny') == ['x', '\r\n', 'y']
     return tab
@@ -149,6 +164,9 @@ def h_book(LexerCls, shape):
         ghost_nl = [z3.IntVal(0)]            # offsets after each terminator, in order
         ghost = []
         for i, k in enumerate(shape):
+            is_lt_token = (k == 3)          # a LINE_TERMINATOR token: exactly one real terminator, nothing else
+            if is_lt_token:
+                k = 1
             gap = SIntZ(z3.Int('gap%d' % i))
             E.solver.add(gap.e >= 0, gap.e <= 10 ** 6)
             pos = SIntZ(z3.simplify(pos.e + gap.e))
@@ -158,20 +176,26 @@ def h_book(LexerCls, shape):
                 E.solver.add(r.e >= 0, r.e <= 10 ** 6)
                 runs.append(r)
             for j in range(k):
-                terms.append(SEnum.fresh('term%d_%d' % (i, j), TERMS))
+                terms.append(SEnum.fresh('term%d_%d' % (i, j), SEPS))
+            real = [bool(SBool(t.e < len(TERMS))) for t in terms]       # an ES5 terminator, or a character that only looks like one
             # a CR directly followed by a LF-initial terminator would be one CRLF: exclude that spelling of two terminators
             for j in range(k - 1):
                 E.solver.add(z3.Not(z3.And(terms[j].e == TERMS.index('\r'), runs[j + 1].e == 0, terms[j + 1].e == TERMS.index('\n'))))
             if k == 0:
                 E.solver.add(runs[0].e >= 1)
+            elif is_lt_token:
+                E.solver.add(runs[0].e == 0, runs[1].e == 0, terms[0].e < len(TERMS))
+            else:
+                E.solver.add(runs[0].e >= 2, runs[-1].e >= 2)        # the /* and */ of a block comment
             val = TokVal(runs, terms)
-            typ = 'ID' if k == 0 else ('LINE_TERMINATOR' if False else 'BLOCK_COMMENT')
+            typ = 'ID' if k == 0 else ('LINE_TERMINATOR' if is_lt_token else 'BLOCK_COMMENT')
             toks.append((typ, pos, val))
             ghost.append((pos, len(ghost_nl)))           # token start, number of terminators before it + 1 = line
             off = pos.e
             for j in range(k):
                 off = off + runs[j].e + z3.If(terms[j].e == TERMS.index('\r\n'), 2, 1)
-                ghost_nl.append(z3.simplify(off))
+                if real[j]:
+                    ghost_nl.append(z3.simplify(off))
             pos = SIntZ(z3.simplify(pos.e + val.sym_len.e))
         L.lexer = Raw(toks)
         for (gpos, gline) in ghost:
@@ -357,6 +381,13 @@ def main():
         strings += [''.join(t) for t in itertools.product(c12mod.ALPHA_T, repeat=4)]
     extra = ["a\r\nb\rc\n d e\n\rf", "/* a\r\nb\rc */ x 'y\\\r\nz\\\nw' q\n/re/ + 1", "x /* \n\n */ y // c\r z"]
     strings += extra
+    # every character the LIVE lexer skips between tokens, every Unicode space separator and the usual invisible suspects,
+    # placed between / before / after tokens and inside a comment and a string: what is skipped must be ES5 white space
+    import unicodedata
+    gapchars = set(lexmod_plain.Lexer.t_ignore) | {chr(c) for c in range(0x3100) if unicodedata.category(chr(c)) in ('Zs', 'Zl', 'Zp', 'Cf', 'Cc')} | {'\ufeff', '\u180e'}
+    for c in sorted(gapchars):
+        strings += ['a' + c + 'b', c + 'a', 'a' + c, '1' + c + '+' + c + '2', 'a/*' + c + '*/' + c + 'b', "'" + c + "'" + c + 'b', 'a' + c + '\n' + c + 'b']
+    strings = list(dict.fromkeys(strings))
     chunks = [strings[i::128] for i in range(128)]
     sres = common.pmap(_sjob, chunks)
     nstr = sum(r[0] for r in sres)
@@ -377,7 +408,7 @@ def main():
     sx.install(src)
     from calmjs.parse.lexers import es5 as lexmod
     _TL['Lexer'] = lexmod.Lexer
-    shapes = list(itertools.product((0, 1, 2), repeat=3 if th else 2)) + [(2, 2, 0), (1, 0, 2), (2, 0, 1)]
+    shapes = list(itertools.product((0, 1, 2), repeat=3 if th else 2)) + [(2, 2, 0), (1, 0, 2), (2, 0, 1), (3, 0), (0, 3, 3, 0), (3, 1, 0), (2, 3, 0)]
     pres = common.pmap(_pjob, shapes)
     tot = dict(paths=0, reached=0, z3_checks=0, assertions=0, solver_s=0.0)
     samples = []
@@ -399,14 +430,19 @@ def main():
             text = ''
             for i, k in enumerate(shape):
                 text += ' ' * min(int(w.get('gap%d' % i, 0) or 0), 3)
-                if k == 0:
+                if k == 3:
+                    text += SEPS[int(w.get('term%d_0' % i, 0) or 0)]
+                elif k == 0:
                     text += 'a' * max(1, min(int(w.get('run%d_0' % i, 1) or 1), 3))
                 else:
                     body = ''
                     for j in range(k + 1):
-                        body += 'c' * min(int(w.get('run%d_%d' % (i, j), 0) or 0), 3)
+                        n = int(w.get('run%d_%d' % (i, j), 0) or 0)
+                        if j in (0, k):
+                            n = max(n - 2, 0)          # the run includes the comment delimiter
+                        body += 'c' * min(n, 3)
                         if j < k:
-                            body += TERMS[int(w.get('term%d_%d' % (i, j), 0) or 0)]
+                            body += SEPS[int(w.get('term%d_%d' % (i, j), 0) or 0)]
                     text += '/*' + body + '*/'
             text += ' z'
             rpd = {'property': 'C06', 'input': {'text': text, 'law': msg}}
@@ -421,7 +457,7 @@ def main():
         'evaluations': tot['paths'] + nstr, 'distinct_nontrivial': tot['reached'] + nstr,
         'rule': 'P: one per SX path (token-structure shape x terminator kinds); S: one per input string', 'samples': samples + [{'lemmas': [list(x) for x in lem][:4]}],
         'queries': tot['z3_checks'] + len(lem), 'solver_s': round(tot['solver_s'], 1), 'assertions_discharged': tot['assertions'],
-        'bounds': {'P': 'sequences of %d tokens, <= 2 terminators per token, all lengths/gaps/kinds symbolic' % (3 if th else 2),
+        'bounds': {'P': 'sequences of %d tokens, <= 2 separator characters per token (LF, CR, CRLF, LS, PS, or FF / NEL which are not terminators), all lengths/gaps/kinds symbolic' % (3 if th else 2),
                    'S': 'all strings of length <= %d over %d class representatives' % (4 if th else 3, len(alpha)),
                    'outside': 'more terminators per token; longer inputs for S'},
     })
